@@ -121,6 +121,7 @@ class FuncV:
         self.self_obj = self_obj
         self.qual = qual or node.name
         self.is_async = isinstance(node, ast.AsyncFunctionDef)
+        self.cls: Optional[ClassV] = None  # defining class: parameter defaults are evaluated in its scope
 
     def __repr__(self) -> str:
         return f'<function {self.qual}>'
@@ -314,8 +315,9 @@ class Interp:
         for st in cls.node.body:
             if isinstance(st, (ast.FunctionDef, ast.AsyncFunctionDef)) and st.name == attr:
                 static = 'staticmethod' in pf.decorator_names(st)
-                return FuncV(st, cls.module, None, None if static else inst, f'{cls.name}.{attr}') if (static or inst is not None) \
-                    else FuncV(st, cls.module, None, None, f'{cls.name}.{attr}')
+                fv = FuncV(st, cls.module, None, None if static else inst, f'{cls.name}.{attr}')
+                fv.cls = cls
+                return fv
             if isinstance(st, ast.Assign) and len(st.targets) == 1 and isinstance(st.targets[0], ast.Name) and st.targets[0].id == attr:
                 if attr not in cls.consts:
                     sc = Scope(None, cls.module)
@@ -436,6 +438,17 @@ class Interp:
         raise Unsupported(f'call of a {type(fn).__name__} value')
         yield  # pragma: no cover
 
+    def _default_scope(self, fn: FuncV) -> Scope:
+        sc = Scope(fn.closure, fn.module)
+        if fn.cls is not None:
+            for st in fn.cls.node.body:
+                if isinstance(st, ast.Assign) and len(st.targets) == 1 and isinstance(st.targets[0], ast.Name):
+                    try:
+                        sc.vars[st.targets[0].id] = self.class_attr(fn.cls, st.targets[0].id, None)
+                    except Unsupported:
+                        pass
+        return sc
+
     def _bind(self, fn: FuncV, args: list, kwargs: dict) -> Scope:
         a = fn.node.args
         scope = Scope(fn.closure, fn.module)
@@ -453,7 +466,7 @@ class Interp:
             elif name in kwargs:
                 scope.vars[name] = kwargs.pop(name)
             elif name in defaults:
-                scope.vars[name] = self.drive(self.ev(defaults[name], Scope(fn.closure, fn.module)))
+                scope.vars[name] = self.drive(self.ev(defaults[name], self._default_scope(fn)))
             else:
                 raise Raised(ExcV(ExcClass('TypeError'), (f'{fn.qual}() missing argument {name}',)))
         extra = args[len(pos):]
@@ -465,7 +478,7 @@ class Interp:
             if ka.arg in kwargs:
                 scope.vars[ka.arg] = kwargs.pop(ka.arg)
             elif kd is not None:
-                scope.vars[ka.arg] = self.drive(self.ev(kd, Scope(fn.closure, fn.module)))
+                scope.vars[ka.arg] = self.drive(self.ev(kd, self._default_scope(fn)))
             else:
                 raise Raised(ExcV(ExcClass('TypeError'), (f'{fn.qual}() missing keyword argument {ka.arg}',)))
         if a.kwarg is not None:
@@ -888,10 +901,7 @@ def model_gather(it: Interp, args: list, kwargs: dict) -> CoroV:
                     if first_exc is None:
                         first_exc = r
             if any(r is _MISSING for r in results) and it.activity == before:
-                yield 'blocked'
-                if it.activity == before:
-                    # resumed without anything having changed: nobody will ever wake the children
-                    raise Raised(ExcV(ExcClass('Deadlock'), ('coroutines passed to asyncio.gather wait for each other for ever',)))
+                yield 'blocked'  # at top level nobody else can run: Interp.drive reports the deadlock
         if not return_exceptions and first_exc is not None:
             raise first_exc
         return list(results)
